@@ -57,6 +57,15 @@ func Gen(t *rapid.T) *Case {
 	for i := 0; i < extra; i++ {
 		c.Events = append(c.Events, Stored{Type: rapid.IntRange(-1, NNames-1).Draw(t, "ety"), Payload: genPayload(t)})
 	}
+	if !c.Option && len(c.Edges) > 0 && rapid.IntRange(0, 2).Draw(t, "late") == 0 {
+		// some (half of the time: all) upcasters are registered by the replay
+		// callback itself when it meets a drawn event
+		c.LateOn = true
+		c.LateAt = rapid.IntRange(0, len(c.Events)-1).Draw(t, "lateAt")
+		if !rapid.Bool().Draw(t, "allLate") {
+			c.LateFrom = rapid.IntRange(0, len(c.Edges)-1).Draw(t, "lateFrom")
+		}
+	}
 	return c
 }
 
